@@ -86,12 +86,32 @@ def call_spec(funcs=tuple(FUNCS), coefs=None, max_deg=5, n_max=6, max_terms=7, s
                 # labelled kinds: install another (documented) label -> integer mapping with set_mapping first
                 "remap": gen.pick((False, 3), (True, 1)) if kind in gen.LABELLED_KINDS else st.just(False),
                 "seed": seeds,
+                # how an explicit schedule is handed over: the documented "iterable of floats" as a list of floats, with
+                # integral temperatures as python ints, as a tuple, a numpy array, a generator or Fractions
+                "sched_form": gen.pick(("list", 4), ("ints", 2), ("tuple", 1), ("ndarray", 1), ("gen", 1), ("frac", 1)),
             })
         return st.integers(0, 9).flatmap(
             lambda r: gen.label_pool(matrix, 1 if r == 0 else 2, n_max)).flatmap(for_labels)
 
     pairs = [(f, k) for f in funcs for k in FUNCS[f][1]]
     return st.sampled_from(pairs).flatmap(for_func_kind)
+
+
+def schedule_in_form(temps, form):
+    temps = [float(t) for t in temps]
+    if form == "ints":
+        return [int(t) if t.is_integer() else t for t in temps]
+    if form == "tuple":
+        return tuple(temps)
+    if form == "ndarray":
+        import numpy as np
+        return np.array(temps, dtype=np.float64)
+    if form == "gen":
+        return (t for t in temps)
+    if form == "frac":
+        from fractions import Fraction
+        return [Fraction(t) for t in temps]
+    return list(temps)
 
 
 def normalise(spec):
@@ -147,7 +167,7 @@ def prepare(qv, spec):
         if tr is not None:
             kwargs["temperature_range"] = tuple(tr)
     else:
-        kwargs["schedule"] = list(sched[1])
+        kwargs["schedule"] = schedule_in_form(sched[1], spec.get("sched_form"))
     init = None
     if spec["init"] is not None:
         bits = spec["init"]
